@@ -14,3 +14,5 @@ Ltac c12_unfold :=
 (* 80 bits suffice except where a sine is evaluated next to a multiple of pi (w = fl(pi), fl(pi)/2 ...):
    Interval obtains sin from cos there and keeps only half of the working precision *)
 Ltac c12_enclose := c12_unfold; try solve [ interval with (i_prec 80) ]; interval with (i_prec 240).
+(* for frequencies k*fl(pi)/m: go to the higher precision at once *)
+Ltac c12_enclose_hi := c12_unfold; interval with (i_prec 240).
